@@ -123,6 +123,9 @@ func (st *Transfer) receiveSums() (rsync.SumHead, error) {
 	if err := head.ReadFrom(st.Conn); err != nil {
 		return head, err
 	}
+	if head.ChecksumCount > 0 && head.BlockLength == 0 {
+		return head, fmt.Errorf("invalid block length 0 for %d checksums", head.ChecksumCount)
+	}
 	var offset int64
 	head.Sums = make([]rsync.SumBuf, int(head.ChecksumCount))
 	for i := int32(0); i < head.ChecksumCount; i++ {
